@@ -412,6 +412,8 @@ impl<NumericTypes: EvalexprNumericTypes> Operator<NumericTypes> {
             VariableIdentifierRead { identifier } => {
                 expect_operator_argument_amount(arguments.len(), 0)?;
 
+                #[cfg(feature = "verif-hooks")]
+                crate::verif::point(crate::verif::Site::OpGetValue);
                 if let Some(value) = context.get_value(identifier).cloned() {
                     Ok(value)
                 } else {
@@ -424,11 +426,17 @@ impl<NumericTypes: EvalexprNumericTypes> Operator<NumericTypes> {
                 expect_operator_argument_amount(arguments.len(), 1)?;
                 let arguments = &arguments[0];
 
+                #[cfg(feature = "verif-hooks")]
+                crate::verif::point(crate::verif::Site::OpCallFunction);
                 match context.call_function(identifier, arguments) {
                     Err(EvalexprError::FunctionIdentifierNotFound(_))
                         if !context.are_builtin_functions_disabled() =>
                     {
+                        #[cfg(feature = "verif-hooks")]
+                        crate::verif::point(crate::verif::Site::OpBuiltinLookup);
                         if let Some(builtin_function) = builtin_function(identifier) {
+                            #[cfg(feature = "verif-hooks")]
+                            crate::verif::point(crate::verif::Site::OpBuiltinCall);
                             builtin_function.call(arguments)
                         } else {
                             Err(EvalexprError::FunctionIdentifierNotFound(
@@ -455,6 +463,8 @@ impl<NumericTypes: EvalexprNumericTypes> Operator<NumericTypes> {
             Assign => {
                 expect_operator_argument_amount(arguments.len(), 2)?;
                 let target = arguments[0].as_string()?;
+                #[cfg(feature = "verif-hooks")]
+                crate::verif::point(crate::verif::Site::OpSetValue);
                 context.set_value(target, arguments[1].clone())?;
 
                 Ok(Value::Empty)
@@ -468,6 +478,8 @@ impl<NumericTypes: EvalexprNumericTypes> Operator<NumericTypes> {
                     identifier: target.clone(),
                 }
                 .eval(&Vec::new(), context)?;
+                #[cfg(feature = "verif-hooks")]
+                crate::verif::point(crate::verif::Site::OpAssignReadWrite);
                 let arguments = vec![left_value, arguments[1].clone()];
 
                 let result = match self {
@@ -484,6 +496,8 @@ impl<NumericTypes: EvalexprNumericTypes> Operator<NumericTypes> {
                         self
                     ),
                 }?;
+                #[cfg(feature = "verif-hooks")]
+                crate::verif::point(crate::verif::Site::OpSetValue);
                 context.set_value(target, result)?;
 
                 Ok(Value::Empty)
